@@ -24,21 +24,28 @@ pub struct GenOpts {
     pub at_patterns: bool,
     pub all_ops: bool,
     pub big_literals: bool,
+    /// percentage of non-leaf positions filled by repeating an earlier binder-free subexpression of the same body
+    /// (common subexpressions: what the cl23+ CSE pass looks for)
+    pub repeat: u32,
 }
 
 impl GenOpts {
     pub fn core() -> GenOpts {
         GenOpts { max_helpers: 3, max_params: 4, depth: 3, lets: true, assign: false, lambda: false, rest: false, fnval: false, macros: false,
-            defconst: false, nested_mod: false, at_patterns: false, all_ops: false, big_literals: false }
+            defconst: false, nested_mod: false, at_patterns: false, all_ops: false, big_literals: false, repeat: 0 }
     }
     pub fn full() -> GenOpts {
         GenOpts { max_helpers: 5, max_params: 6, depth: 4, lets: true, assign: true, lambda: true, rest: true, fnval: true, macros: true,
-            defconst: false, nested_mod: false, at_patterns: true, all_ops: true, big_literals: true }
+            defconst: false, nested_mod: false, at_patterns: true, all_ops: true, big_literals: true, repeat: 0 }
+    }
+    /// programs rich in repeated subexpressions
+    pub fn cse() -> GenOpts {
+        GenOpts { repeat: 35, at_patterns: false, macros: false, big_literals: false, ..GenOpts::full() }
     }
     /// what the classic compiler accepts
     pub fn classic() -> GenOpts {
         GenOpts { max_helpers: 4, max_params: 6, depth: 3, lets: false, assign: false, lambda: false, rest: false, fnval: false, macros: true,
-            defconst: false, nested_mod: false, at_patterns: false, all_ops: true, big_literals: true }
+            defconst: false, nested_mod: false, at_patterns: false, all_ops: true, big_literals: true, repeat: 0 }
     }
 }
 
@@ -56,6 +63,7 @@ pub struct Gen {
     pub o: GenOpts,
     counter: usize,
     let_depth: usize,
+    pool: Vec<(Expr, Vec<String>)>,
 }
 
 const OPS_CORE: &[(u8, usize)] = &[(16, 2), (17, 2), (18, 2), (4, 2), (5, 1), (6, 1), (7, 1), (9, 2), (21, 2), (32, 1)];
@@ -63,7 +71,7 @@ const OPS_MORE: &[(u8, usize)] = &[(10, 2), (12, 2), (12, 3), (13, 1), (14, 2), 
 
 impl Gen {
     pub fn new(rng: ChaCha8Rng, o: GenOpts) -> Gen {
-        Gen { rng, o, counter: 0, let_depth: 0 }
+        Gen { rng, o, counter: 0, let_depth: 0, pool: vec![] }
     }
     fn fresh(&mut self, prefix: &str) -> String {
         self.counter += 1;
@@ -150,6 +158,52 @@ impl Gen {
             }
             return Expr::Lit(self.literal());
         }
+        if self.o.repeat > 0 && self.rng.random_range(0..100) < self.o.repeat {
+            let cands: Vec<usize> = (0..self.pool.len()).filter(|i| self.pool[*i].1.iter().all(|n| scope.contains(n))).collect();
+            if !cands.is_empty() {
+                return self.pool[cands[self.rng.random_range(0..cands.len())]].0.clone();
+            }
+        }
+        let e = self.expr_fresh(depth, scope, fns, consts, macros);
+        if self.o.repeat > 0 && Self::binder_free(&e) {
+            let mut fv = vec![];
+            Self::vars_of(&e, &mut fv);
+            fv.retain(|n| scope.contains(n));
+            self.pool.push((e.clone(), fv));
+        }
+        e
+    }
+
+    fn binder_free(e: &Expr) -> bool {
+        match e {
+            Expr::Lit(_) | Expr::Var(_) => true,
+            Expr::Prim(_, a) | Expr::List(a) => a.iter().all(Self::binder_free),
+            Expr::If(a, b, c) => Self::binder_free(a) && Self::binder_free(b) && Self::binder_free(c),
+            Expr::Call(_, a, r) => a.iter().all(Self::binder_free) && r.as_ref().map(|x| Self::binder_free(x)).unwrap_or(true),
+            _ => false,
+        }
+    }
+
+    fn vars_of(e: &Expr, out: &mut Vec<String>) {
+        match e {
+            Expr::Var(n) => out.push(n.clone()),
+            Expr::Prim(_, a) | Expr::List(a) => a.iter().for_each(|x| Self::vars_of(x, out)),
+            Expr::If(a, b, c) => {
+                Self::vars_of(a, out);
+                Self::vars_of(b, out);
+                Self::vars_of(c, out);
+            }
+            Expr::Call(_, a, r) => {
+                a.iter().for_each(|x| Self::vars_of(x, out));
+                if let Some(x) = r {
+                    Self::vars_of(x, out);
+                }
+            }
+            _ => {}
+        }
+    }
+
+    fn expr_fresh(&mut self, depth: usize, scope: &[String], fns: &[FnInfo], consts: &[String], macros: &[(String, usize)]) -> Expr {
         let d = depth - 1;
         let choice = self.rng.random_range(0..100);
         macro_rules! sub {
@@ -298,6 +352,7 @@ impl Gen {
                 let pat = self.pattern(np, &mut fscope);
                 let (n, improper) = Self::top_len(&pat);
                 let d = self.o.depth.saturating_sub(1).max(1);
+                self.pool.clear();
                 let mut body = self.expr(d, &fscope, &fns, &consts, &macros);
                 // one guarded structural recursion shape for non-inline functions
                 if !inline && !improper && n == 1 && self.rng.random_range(0..5) == 0 {
@@ -315,6 +370,7 @@ impl Gen {
             }
         }
         let depth = self.o.depth;
+        self.pool.clear();
         let body = self.expr(depth, &scope, &fns, &consts, &macros);
         Program { args, helpers, body }
     }
